@@ -19,7 +19,7 @@ CHECKS = {
          "5/C03"),
  "C01": ("exploration",
          "runtime reference-model monitor: generated programs x hostile/random graphs executed by the real compiler and pipeline (no optimizers, force-load decorator) in worker processes; canonical row multisets compared with a step-by-step reference interpreter; static typing pass as oracle for rejection",
-         "Held on every explored (program, graph) pair: all V/E-initial step sequences up to length 3 (quick) / 4 (thorough) over a 63-instance alphabet plus 2000 / 50000 random type-directed programs of length 5-9, on an 8-graph hostile library and 20 / 500 random graphs; ill-typed sequences must be rejected at compile time. Order-sensitive steps are judged by bound arithmetic and sub-multiset only. Nothing is claimed beyond the stated program lengths, alphabet and graph sizes.",
+         "Held on every explored (program, graph) pair: all V/E-initial step sequences up to length 3 (quick) / 4 (thorough) over a 63-instance alphabet plus 2000 / 50000 random type-directed programs of length 5-9, on a 9-graph hostile library and 20 / 500 random graphs, plus deep families (every sequence of 1-3 / 1-5 moves with marks at two depths ending in path/select/render/count on graphs with fan-out at every level); ill-typed sequences must be rejected at compile time. Order-sensitive steps are judged by bound arithmetic and sub-multiset only. Nothing is claimed beyond the stated program lengths, alphabet and graph sizes.",
          "Trusted: the reference interpreter harness/model/traversal.go (written from the docs; where the docs are silent it adopts the literal engine behaviour, listed as assumptions in the evidence). Programs whose meaning is unspecified are not generated.",
          "5/C01 and appendix A"),
  "C02": ("exploration",
@@ -34,17 +34,17 @@ CHECKS = {
          "5/C06"),
  "C09": ("exploration",
          "runtime reference-model monitor: operation sequences on kvindex.KVIndex over Badger executed in worker processes; after every step every public query is compared with a brute-force scan over the model's live documents",
-         "Held on every explored sequence: all sequences of depth 2 (quick) / 3 (thorough) over 39 operations from three base states plus 500 / 20000 random sequences of length 8-20, all queries on all fields after every step, plus 90- and 250-term range cases. Field registration after documents exist is a known finding and is excluded from generation.",
+         "Held on every explored sequence: all sequences of depth 2 (quick) / 3 (thorough) over 39 operations from three base states plus 500 / 20000 random sequences of length 8-20, every sequence once with all queries on all fields after every step and once with queries only after the last step, range bounds at 0 and at term values, plus 90- and 250-term range cases. Field registration after documents exist is a known finding and is excluded from generation.",
          "Trusted: the 60-line scan model in c09.go. Range bounds are kept strictly between term values; KVTermCount cannot distinguish the string \"\" from the number 0, the comparison treats them as one key.",
          "5/C09"),
  "C10": ("exploration",
          "runtime reference-model monitor per driver: operation sequences on the kvi.KVInterface of badger, bolt, level and pebble executed in worker processes and compared, after every operation, with a sorted-map model (point reads, existence, forward/reverse seek walks, several seeks per view, reads inside transactions); plus C03 histories and C01 programs replayed on kvgraph over each driver against the shared models",
-         "Held on every explored sequence for all four registered drivers: depth 2 (quick) / 3 (thorough) exhaustive over 27 operations plus 300 / 20000 random sequences of length 10-40 per driver, about 80 observations after every operation; 100 / 3000 mutation histories and 200 / 5000 traversals replayed per driver. Keys over a 4-byte alphabet with shared prefixes, empty values included.",
+         "Held on every explored sequence for all four registered drivers: depth 2 (quick) / 3 (thorough) exhaustive over 27 operations plus 300 / 20000 random sequences of length 10-40 per driver, about 80 observations after every operation; 100 / 3000 mutation histories and 200 / 5000 traversals replayed per driver. Keys over a 4-byte alphabet with shared prefixes, empty values included; 9999 / 10001 / 20005 keys under one prefix per driver (block size of the adapters' DeletePrefix).",
          "Trusted: the sorted-map model (40 lines) and the documented SeekReverse convention (largest key <= k, then descending). Rollback on error, the empty key and Key()/Value() on an invalid iterator are outside the property.",
          "5/C10"),
  "C04": ("fault_enumeration",
          "fault injection with a runtime invariant monitor: a fault-injecting kvi.KVInterface decorator passed to kvgraph.NewKVGraph counts the top-level writes of every mutating call and interrupts the call before each of them in turn; after closing and reopening the store a structural monitor checks index/adjacency invariants over the public read interface; clean restarts are inserted at every position of random mutation histories and checked against the abstract-graph model",
-         "The crash points of every call of the 39-call alphabet in 4 pre-states are enumerated completely (every k in 1..W) and I1-I4 held after each; every restart position of 12 / 400 random histories held against the model, including label-indexed lookups of elements written after the reopen. Thorough additionally SIGKILLs a real child between writes for a third of the calls.",
+         "The crash points of every call of the 39-call alphabet in 4 pre-states, and of deletions/relabelling around a vertex with 300 incident edges, are enumerated completely (every k in 1..W) and I1-I4 held after each; every restart position of 12 / 400 random histories held against the model, including label-indexed lookups of elements written after the reopen; pairs of calls as the first two calls of a new session (quick: ~260 pairs, thorough: all 38x38 from 3 base states). Thorough additionally SIGKILLs a real child between writes for a third of the calls.",
          "Assumes each top-level KV write is atomic and durable once it returns (the property says so); crash = stop before write k, close, reopen. Trusted: the FaultKV decorator (100 lines) and the invariant checker gq/snapshot.go.",
          "5/C04"),
  "C16": ("exploration",
@@ -69,12 +69,12 @@ CHECKS = {
          "5/C14"),
  "C20": ("exploration",
          "recording-driver monitor: the psql and existing-sql backends run over a recording database/sql driver (injected through verif-tagged constructors); every statement and its bound arguments are captured and a PostgreSQL tokenizer compares the statement sent for a hostile client string with the one sent for a benign string (token skeleton, decoded literals, bound arguments)",
-         "All 38 entry points that take an id, label or name x 42 hostile strings are run completely. 24 call sites build SQL by string formatting and are listed as known findings (one per call site, keyed driver:function:argument); the parameterised sites (AddVertex/AddEdge) hold, and any site not listed that changes token structure is reported.",
+         "All 38 entry points that take an id, label or name x 47 client strings are run completely. 23 call sites build SQL by string formatting and are listed as known findings (one per call site, keyed driver:function:argument:quote - a defect at the same site that needs no quote character has another key); the parameterised sites (AddVertex/AddEdge) hold, and any site not listed that changes token structure is reported.",
          "Trusted: the 180-line PostgreSQL tokenizer harness/model/sqltok.go (standard_conforming_strings on). No SQL server exists in the sandbox; canned empty result sets stand in for query answers.",
          "5/C20"),
  "C12": ("exploration",
          "runtime trace monitor + race detector under schedule perturbation: loop programs run in a -race build with verif-tagged event taps and delay points in the mark/jump/queue protocol; GOMAXPROCS and delay profiles are varied per run; result multiset compared with a worklist interpreter of the iterative definition, traveler conservation checked on the recorded event trace, non-closure diagnosed by livelock/deadlock certificates, race reports parsed and keyed",
-         "Held on every observed execution: ~130 loop programs x 6 graphs x GOMAXPROCS in {1,2,4,16} x 15 delay profiles (quick: a rotating third, about 1500 runs; thorough: all, with repetitions), including runs with thousands of travelers in flight. The evidence reports the number of distinct interleaving signatures actually observed (about 700 in a quick run); 'all interleavings' is sampled, not enumerated.",
+         "Held on every observed execution: ~130 loop programs x 6 graphs x GOMAXPROCS in {1,2,4,16} x 15 delay profiles (quick: a rotating third, about 1500 runs; thorough: all, with repetitions), including runs with thousands of travelers in flight and one with 18750 travelers jumping back at once (more than all buffers of the cycle); a run that stops moving is judged by deadlock, livelock or stall certificates. The evidence reports the number of distinct interleaving signatures actually observed (about 700 in a quick run); 'all interleavings' is sampled, not enumerated.",
          "Trusted: the worklist interpreter (harness/model/loop.go), the recorder (harness/mon). Hooks H1/H2 (verifhook taps) are add-only no-ops without the tag. Bodies are restricted to order-preserving steps as the property states.",
          "5/C12"),
  "C13": ("exploration",
@@ -94,7 +94,7 @@ CHECKS = {
          "5/C11"),
  "C07": ("exploration",
          "termination and leak monitor with state-based certificates: traversals with closed-form answers run on graphs sized around and beyond every internal buffer capacity in worker processes; closure of the result stream, the closed-form row count, a row-count divergence bound, and (after completion, cancellation or a satisfied limit) the return of engine goroutines and temporary stores to the baseline are checked; a run that does not close is judged by a goroutine-dump deadlock certificate, never by the clock",
-         "Held on every explored (shape, size, traversal, cancellation point): 13 sizes from 0 to 12000, every single step and (quick: a sixth of) every ordered pair of 16 fan-out/fan-in steps, star/pairs traversals, limit/range mid-stream, cancellation after 0/1/100/5001 rows. 'Always finishes' is restated as bounded progress on the explored sizes.",
+         "Held on every explored (shape, size, traversal, cancellation point): 13 sizes from 0 to 12000, every single step and (quick: a sixth of) every ordered pair of 16 fan-out/fan-in steps, star/pairs traversals, limit/range mid-stream and right behind a 12000-spoke hub, cancellation after 0/1/100/5001 rows. 'Always finishes' is restated as bounded progress on the explored sizes.",
          "Closed forms are computed by 30 lines in c07.go; the deadlock certifier is fw/worker.go. Inconclusive (watchdog without certificate) is reported separately.",
          "5/C07"),
  "C15": ("exploration",
@@ -103,8 +103,8 @@ CHECKS = {
          "Repeated links (two link rows giving one edge id) are compared with the interpreter on a multigraph only; lookups of such ids are not generated.",
          "5/C15"),
  "C17": ("exploration",
-         "race detector + history checker: seeded client sessions (2-32 clients, 8 profiles) against one live GripServer over loopback gRPC in a -race worker; every call is recorded at the client boundary with call/return stamps; race-detector reports are keyed by the racing function pair and every key must be listed; a fatal error ends the worker and is attributed to the running case; ids with one writer must behave sequentially, values read on shared ids must have been written before the read returned, the final values of shared ids must be explained by an order of the acknowledged edits that respects each client's program order (constraint graph, acyclicity), the stored graph must satisfy its index/data invariants at quiescence, stored schemas must be one upload, jobs must end COMPLETE with the rows of their query; manager.GetTempKV and util.StreamBatch are driven directly",
-         "Held on every explored schedule: 3/20 repetitions x 8 profiles x 2-32 clients x GOMAXPROCS 1-16; no race report, no fatal error, every history explained. Interleavings are sampled, not enumerated.",
+         "race detector + history checker: seeded client sessions (2-32 clients, 9 profiles) against one live GripServer over loopback gRPC in a -race worker; every call is recorded at the client boundary with call/return stamps; race-detector reports are keyed by the racing function pair and every key must be listed; a fatal error ends the worker and is attributed to the running case; ids with one writer must behave sequentially, values read on shared ids must have been written before the read returned, the final values of shared ids must be explained by an order of the acknowledged edits that respects each client's program order (constraint graph, acyclicity), the stored graph must satisfy its index/data invariants at quiescence, stored schemas must be one upload, jobs must end COMPLETE with the rows of their query; manager.GetTempKV and util.StreamBatch are driven directly",
+         "Held on every explored schedule: 3/20 repetitions x 9 profiles x 2-32 clients x GOMAXPROCS 1-16; no race report, no fatal error, every history explained. A state-based violation is reported even if isolated replays take another schedule. Interleavings are sampled, not enumerated.",
          "porcupine was not needed: unique values make the program-order check exact for present keys and the check is polynomial; for keys that end absent the killer search is permissive (never stricter than the property).",
          "5/C17"),
 }
